@@ -434,11 +434,18 @@ def evaluate(ctx, cases, impl, model):
     if rc_i != 0:
         # a crash loses the rest of its chunk: re-run the scripts without a result one per process, so that
         # only the scripts that really kill the driver are reported
-        missing = [l for l in lines if l.split(" ", 1)[0] not in res_i][:1500]
         from concurrent.futures import ThreadPoolExecutor
+        missing = [l for l in lines if l.split(" ", 1)[0] not in res_i]
+        groups = [missing[i:i + 25] for i in range(0, len(missing), 25)]
         with ThreadPoolExecutor(core.NPROC) as ex:
-            for rc1, r1, raw1 in ex.map(lambda l: core.run_lines(impl, l + "\n", 120), missing):
+            for rc1, r1, raw1 in ex.map(lambda g: core.run_lines(impl, "\n".join(g) + "\n", 300), groups):
                 res_i.update(r1)
+        missing = [l for l in lines if l.split(" ", 1)[0] not in res_i]
+        with ThreadPoolExecutor(core.NPROC) as ex:
+            for rc1, r1, raw1 in ex.map(lambda l: core.run_lines(impl, l + "\n", 120), missing[:3000]):
+                res_i.update(r1)
+        for l in missing[3000:]:
+            meta.pop(l.split(" ", 1)[0], None)   # not re-run individually: no verdict for these
     if model and rc_m != 0:
         corr.append({"case": "(process)", "impl": "", "model": "model driver exited with status %d: %s" % (rc_m, raw_m[-300:])})
     for cid, (cls, enc, ver, evs, line) in meta.items():
